@@ -392,3 +392,21 @@ def c08f(ctx):
     ok = any(is_call(x, 'cleanup_lockdir') for x in tl.walk())
     ctx.check(True, 'TileLocker.lock:sweeps' if ok else 'TileLocker.lock:no-sweep', 'the sweep runs on the request path (TileLocker.lock)' if ok else
               'TileLocker.lock does not sweep the lock directory', tl)
+
+
+@rule('C08.g', floor=1)
+def c08g(ctx):
+    """concurrent requests of one process that store the same file (two meta tiles of one colour that share a single-colour tile,
+    the same legend ...) do not break each other: write_atomic writes to a temporary name that is its own for every call -- it
+    contains a random / unique component; the process id alone is shared by all request threads"""
+    fn = ctx.fn('mapproxy/util/fs.py:write_atomic')
+    opens = [x for x in fn.walk() if is_call(x, 'os.open') and len(x.args) >= 2 and 'O_EXCL' in unparse(x.args[1])]
+    if not opens:
+        raise Undecided('write_atomic: exclusive create of the temporary file not found')
+    for x in opens:
+        form = fn.canon.expr(x.args[0])
+        unique = contains(form, lambda y: isinstance(y, ast.Call) and (
+            (call_name(y) or '').startswith(('random.', 'uuid.', 'secrets.', 'tempfile.')) or simple_name(y) in ('get_ident', 'mkstemp', 'uuid4', 'token_hex')))
+        ctx.check(unique, 'write_atomic:temp-name-unique-per-call', 'the temporary file name has a random / per-call unique component', fn, x,
+                  fail='the temporary name %s is the same for all threads of the process: two concurrent stores of the same file collide '
+                       '(EEXIST, then the error path removes the other writer\'s file)' % unparse(form)[:80])
